@@ -510,8 +510,13 @@ def r5_groups_are_groupby_groups(repo=None):
             whole = None
             if isinstance(d, (ast.List, ast.Tuple)):
                 for e in d.elts:
-                    if isinstance(e, ast.Tuple) and len(e.elts) == 2 and norm(ast.unparse(e.elts[1])) in inputs:
-                        whole = e
+                    if isinstance(e, ast.Tuple) and len(e.elts) == 2:
+                        grp = e.elts[1]
+                        # iter(samples) / list(samples) / tuple(samples): still the whole input
+                        while isinstance(grp, ast.Call) and pyfront.call_name(grp) in ("iter", "list", "tuple") and len(grp.args) == 1 and not grp.keywords:
+                            grp = grp.args[0]
+                        if norm(ast.unparse(grp)) in inputs:
+                            whole = e
             if whole is not None:
                 r.violation(m.rel, m.qualname, "%s = %s" % (loop.iter.id, norm(ast.unparse(d))[:70]), "a group is the whole ungrouped input "
                             "`%s` under one key (`%s`): the key is not evaluated for the samples of the group, so a sample whose own "
@@ -903,7 +908,15 @@ def r9_reader_file_list_has_no_memory(repo=None, rid="C13.R9", view="filelist"):
     for a in sorted(read_attrs):
         site = "%s:%s %s self.%s" % (m.rel, read_attrs[a].lineno, vname, a)
         if a in writers and a not in meths:
-            q, n = writers[a][0]
+            # positive evidence: a *container* held in the attribute is filled by a query (a memo keyed by names: `self.A[k] = v`,
+            # `self.A.update(..)`, `.add(..)`).  A plain re-assignment of the attribute in a query (a refresh of what the constructor
+            # read, e.g. re-reading the channel properties once files exist) is not a memory of earlier answers: not decided here
+            memo = [(q_, n_) for q_, n_ in writers[a] if not (isinstance(n_, ast.Attribute) and isinstance(n_.ctx, ast.Store))]
+            if not memo:
+                q_, n_ = writers[a][0]
+                raise AnalysisError("%s: `self.%s`, read by %s, is re-assigned by a query (line %d): whether that is a refresh or a memory of "
+                                    "earlier answers is not decided" % (q_, a, vname, n_.lineno))
+            q, n = memo[0]
             if view == "filelist":
                 r.violation(m.rel, q, norm(ast.unparse(n))[:80], "`self.%s`, which the candidate-list method %s reads, is changed by a query: the files a "
                             "read consults then depend on what earlier reads of this reader object saw - a file created later (an "
